@@ -6,7 +6,7 @@ from lifecycle import future_root
 from rules.common import cfg_of, tracer_of, live_calls, fn_of, loc_of, all_calls
 from rules import c10, c16
 from prov import strip_wrappers, strip_refs, show
-from cfg import callee, is_panic_call
+from cfg import const_int, callee, is_panic_call
 
 LEVEL = "other"
 REQUIRE_FEATURES = ["deadlock-detection"]
@@ -355,6 +355,35 @@ def direction(run, f, det):
     run.require(start_params == {want_start} and cmp_params == {want_target}, "O14.5", "walk-direction",
                 "has_path starts its walk at parameter(s) %s and compares with parameter(s) %s; ask passes the callee's id as #%d and the caller's id as #%d (the walk must ask 'can the callee reach me')" % (sorted(start_params), sorted(cmp_params), want_start, want_target),
                 "walk starts at the callee's id and looks for the caller's id", loc=det.loc(hp))
+    # O14.9 the walk's verdicts: `true` exactly on the branch where the looked-up successor is the target (and at once,
+    # without another lookup); every other way out of the walk (chain ends, step bound exhausted) answers `false`
+    hcfg = cfg_of(hb)
+    eq_true = None
+    for blk in hb.blocks:
+        if blk.term["k"] == "switch" and blk.idx in hcfg.live:
+            s_ = htr.norm(htr.operand(blk.term["discr"]))
+            if s_[0] == "binop" and s_[1] in ("Eq", "Ne") and any(strip_wrappers(x) == ("param", want_target) for x in (s_[2], s_[3])):
+                t_ = blk.term
+                nz = [tgt for v, tgt in t_["arms"] if int(v) != 0] or [t_["otherwise"]]
+                z = [tgt for v, tgt in t_["arms"] if int(v) == 0] or [t_["otherwise"]]
+                eq_true = (nz if s_[1] == "Eq" else z)[0]
+    verdicts = []
+    for blk in hb.blocks:
+        if blk.idx not in hcfg.live:
+            continue
+        for st in blk.stmts:
+            if st["k"] == "assign" and st["place"]["l"] == 0 and not st["place"]["p"]:
+                verdicts.append((blk.idx, const_int(st["rv"]["use"]) if "use" in st["rv"] else None))
+    if run.require(eq_true is not None and gets and verdicts, "O14.9", "walk-verdict-anchors", "cannot find the comparison with the target / the result assignments of has_path", "found"):
+        region = hcfg.reachable_from(eq_true, avoid={gets[0].idx}) | {eq_true}
+        rets = hcfg.exits(("return",))
+        yes = [(bb, v) for bb, v in verdicts if bb in region]
+        no = [(bb, v) for bb, v in verdicts if bb not in region]
+        found_ok = bool(yes) and all(v == 1 for _, v in yes) and any(r in region for r in rets) and gets[0].idx not in hcfg.reachable_from(eq_true, avoid=set(rets))
+        run.require(found_ok, "O14.9", "walk-found-returns-true", "when the looked-up successor is the target has_path does not return true at once (results on that branch: %s): an existing cycle would go unreported" % [v for _, v in yes],
+                    "successor == target => return true", loc=loc_of(hb, eq_true))
+        run.require(bool(no) and all(v == 0 for _, v in no), "O14.9", "walk-otherwise-false", "has_path can answer %s without having found the target (chain ended / bound exhausted)" % sorted({v for _, v in no}),
+                    "every other exit of the walk returns false")
     # O14.7 (necessary condition on the walk's step bound): in a functional graph with n edges a
     # path can have n hops, so a bounded walk must allow at least `graph.len()` steps
     bound_ok = None
